@@ -6,6 +6,7 @@
  */
 #define _GNU_SOURCE
 #include <stdio.h>
+#include <pthread.h>
 #include <stdlib.h>
 #include <string.h>
 #include <stdint.h>
@@ -210,9 +211,13 @@ static const char **incfn_empty(config_t *c, const char *dir, const char *path, 
 }
 /* an include function that uses the library itself (reads and writes another configuration) before answering like the
    default one: re-entrant use from inside a read */
+static int incfn_switched = 0;     /* the include function changed the process-wide locale (DRV_INCFN_SETLOCALE) */
 static const char **incfn_nested(config_t *c, const char *dir, const char *path, const char **error)
 {
   config_t inner;
+  /* application code running in the middle of a read may change the process-wide locale (a late setlocale(LC_ALL, "")):
+     what the library reads afterwards, in the same call, must not depend on it */
+  if(getenv("DRV_INCFN_SETLOCALE")) { if(setlocale(LC_NUMERIC, getenv("DRV_INCFN_SETLOCALE"))) incfn_switched = 1; }
   config_init(&inner);
   if(config_read_string(&inner, "nested = 2.5; other = ( 1.25, 1e3 );"))
   {
@@ -632,6 +637,7 @@ static void leak_probe(void) { fflush(out); if(__lsan_do_recoverable_leak_check(
 static void leak_probe(void) { }
 #endif
 
+static int pending_errno = 0, pending_errno_set = 0;
 static int run_line(char *line)
 {
   char *tok[MAXTOK];
@@ -649,6 +655,8 @@ static int run_line(char *line)
 #define IS(s) (!strcmp(c, s))
 #define NODE(var, t) config_setting_t *var = resolve(t); if(!var) { fputs("R badhandle\n", out); return 0; }
 
+  if(n == 2 && IS("seterrno")) { pending_errno = (int)parse_num(tok[1]); pending_errno_set = 1; r_unit(); return 0; }
+  if(pending_errno_set) { pending_errno_set = 0; errno = pending_errno; }   /* the state the caller's errno is in when it calls the library */
   if(n == 1 && IS("dump")) { dump(); return 0; }
   if(n == 2 && IS("case"))
   {
@@ -1151,6 +1159,10 @@ static int run_line(char *line)
   return 0;
 }
 
+#ifdef DRV_FAULT
+static void *worker_line(void *arg) { run_line((char *)arg); return NULL; }
+#endif
+
 int main(int argc, char **argv)
 {
   if(argc < 2) { fprintf(stderr, "usage: drv script [workdir]\n"); return 2; }
@@ -1183,11 +1195,22 @@ int main(int argc, char **argv)
     rewind(sf);
   }
 #endif
+  if(getenv("DRV_CLOSE_STDIN")) close(0);      /* a process started with standard input closed: descriptor 0 is free */
   while((len = getline(&line, &cap, sf)) >= 0)
   {
     while(len > 0 && (line[len - 1] == '\n' || line[len - 1] == '\r')) line[--len] = 0;
     if(len == 0) continue;
+#ifdef DRV_FAULT
+    if(getenv("DRV_WORKER") && !recover_mode)
+    {
+      /* the call is made on another thread than the one that registered the fatal-error function */
+      pthread_t th;
+      if(pthread_create(&th, NULL, worker_line, line) == 0) pthread_join(th, NULL); else run_line(line);
+    }
+    else
+#endif
     run_line(line);
+    if(incfn_switched) { setlocale(LC_NUMERIC, glob_name ? glob_name : "C"); incfn_switched = 0; }
     if(live) check_handed();
     ev_flush();
 #if defined(DRV_FAULT) && defined(DRV_CXX)
